@@ -72,9 +72,11 @@ fn start_watchdog() {
 }
 
 fn limit_address_space() {
-    // A non-terminating parser loop usually also allocates without bound; turn that into an allocation
-    // failure of this child (abort -> child death, attributed to the input) instead of exhausting the machine.
-    let lim = libc::rlimit { rlim_cur: 8 << 30, rlim_max: 8 << 30 };
+    // A non-terminating parser loop usually also allocates without bound (every iteration records events and
+    // errors); turn that into an allocation failure of this child (abort -> child death, attributed to the input
+    // and reported as non-termination by the Python side) instead of exhausting the machine. A normal input
+    // needs 100-200 MiB (standard library trees) plus the 256 MiB stack reservation.
+    let lim = libc::rlimit { rlim_cur: 3 << 30, rlim_max: 3 << 30 };
     unsafe { libc::setrlimit(libc::RLIMIT_AS, &lim) };
 }
 
